@@ -336,32 +336,82 @@ def band_rules(run, db):
 
 
 def rms_rules(run, db):
+    """render_synthetic_surface: the surface is masked first, its NaN-aware RMS measured then, and multiplied by requested/measured --
+    decided by interpreting the routine in NORM with the synthesis and the RMS routine summarised (events in the order they happen)."""
+    from .common import capture_calls
+    from ..core.interp import Value
     f = db.func(M + 'render_synthetic_surface')
-    from ..core.pattern import match_all
-    # the surface is the third returned value; the statements are found by shape, in source order
-    rb = match_all(f.node, ['return V_x, V_y, V_z'])
-    if rb is None:
-        raise AnalysisError('render_synthetic_surface: does not return (x, y, z)')
-    Z = rb['V_z']
-    env0 = {'V_z': Z}
-    forms = (["V_z[mask == 0] = np.nan", "V_m = globals()['rms'](V_z)", 'V_s = rms / V_m', 'V_z *= V_s'],
-             ["V_z[mask == 0] = np.nan", "V_m = globals()['rms'](V_z)", 'V_z *= rms / V_m'],
-             ["V_z[mask == 0] = np.nan", "V_z *= rms / globals()['rms'](V_z)"])
-    hit = None
-    for pats in forms:
-        hit = hit or match_all(f.node, pats, env=env0, ordered=True)
-    loose = None
-    for pats in forms:
-        loose = loose or match_all(f.node, pats, env=env0, ordered=False)
-    if loose is None:
-        # say which part is missing
-        parts = {'mask': match_all(f.node, ["V_z[mask == 0] = np.nan"], env=env0), 'measure': match_all(f.node, ["V_m = globals()['rms'](V_z)"], env=env0),
-                 'apply': match_all(f.node, ['V_z *= E_s'], env=env0)}
-        if not parts['mask'] or not parts['apply']:
-            raise AnalysisError('render_synthetic_surface: mask / apply statements not found')
-    run.check(hit is not None or loose is None, 'C13.rms', f.qual, 'order', 'mask -> measure rms -> scale -> apply', 'the RMS is not measured after masking and before scaling', f.loc())
-    run.check(loose is not None, 'C13.rms', f.qual, 'measure / scale / apply', 'the masked surface is measured by the NaN-aware rms, scale == requested / measured, the surface is multiplied by the scale',
-              'the RMS scaling is no longer z *= rms / rms(z) on the masked surface', f.loc())
+    itn, domn = norm_interp(db)
+    events = []
+    oe, osub, ost, oga, ocmp = domn.call_ext, domn.subscript, domn.store_subscript, domn.getattr, domn.compare
+
+    class MaskSel(Value):
+        pass
+
+    def call_ext(dotted, args, kwargs, node):
+        last = dotted.rsplit('.', 1)[-1]
+        if dotted == 'builtins.globals':
+            return Unknown('globals()')
+        if last in ('meshgrid',):
+            return Tup([domn.sym('GX'), domn.sym('GY')])
+        return oe(dotted, args, kwargs, node)
+
+    def subscript(v, idx, node):
+        # globals()['rms'] is the module-level rms
+        if isinstance(v, Unknown) and 'globals' in str(v.why) and isinstance(idx, Const) and isinstance(idx.v, str):
+            return itn.lookup_global(idx.v, f.module)
+        if domn.rat(v) is not None:
+            return domn.func_atom('elem', [v])
+        return osub(v, idx, node)
+
+    def compare(op, a, b, node):
+        if domn.rat(a) is not None and domn.rat(a).key() == 'MASK':
+            return MaskSel()
+        return ocmp(op, a, b, node)
+
+    def store_subscript(target, idx, val, node):
+        if domn.rat(target) is not None:
+            events.append(('store', domn.rat(target).key(), isinstance(idx, MaskSel), repr(val)))
+            return True
+        return ost(target, idx, val, node)
+    domn.call_ext, domn.subscript, domn.compare, domn.store_subscript = call_ext, subscript, compare, store_subscript
+
+    def summarise(fi_, b_):
+        if fi_.name == 'rms':
+            arg = b_.get(fi_.params[0])
+            events.append(('rms', domn.rat(arg).key() if domn.rat(arg) is not None else repr(arg)))
+            return domn.func_atom('RMS', [arg]) if domn.rat(arg) is not None else Unknown('rms of a non-array')
+        if fi_.name == 'synthesize_surface_from_psd':
+            return Tup([domn.sym('X'), domn.sym('Y'), domn.sym('Z')])
+        if fi_.name == 'forward_ft_unit':
+            return domn.sym('NU')
+        return domn.sym('PSD_' + fi_.name)
+    callees = {'prysm.util.rms', M + 'synthesize_surface_from_psd', 'prysm.fttools.forward_ft_unit', 'prysm.coordinates.cart_to_polar'}
+    callees |= {g.qual for g in f.module.functions.values() if g.name.endswith('_psd') and g.qual != f.qual}
+
+    def psd_fcn(fobj, args, kwargs, node):
+        if isinstance(fobj, Unknown) and 'globals' in str(fobj.why):
+            return Unknown('globals()')
+        if domn.rat(fobj) is not None and domn.rat(fobj).key() == 'PSDFCN':
+            return domn.sym('PSDVAL')
+        return None
+    domn.call_object = psd_fcn
+    paths, calls = capture_calls(itn, domn, f, lambda: {'size': domn.sym('size'), 'samples': domn.sym('samples'), 'rms': domn.sym('TARGET'), 'mask': domn.sym('MASK'),
+                                                        'psd_fcn': domn.sym('PSDFCN')}, callees, summarise)
+    rets = [p_ for p_ in paths if p_.outcome == 'return' and isinstance(p_.value, Tup) and len(p_.value.items) == 3]
+    if not rets:
+        raise AnalysisError('render_synthetic_surface: no path returns (x, y, z) under interpretation')
+    R_ = domn.R
+    want = Rat(R_.atom('Z')) * Rat(R_.atom('TARGET')) / Rat(R_.func('RMS', [Rat(R_.atom('Z'))]))
+    for p_ in rets:
+        z = domn.rat(p_.value.items[2])
+        order = [e[0] for e in events if e[0] == 'rms' or (e[0] == 'store' and e[1] == 'Z' and e[2])]
+        okorder = 'store' in order and 'rms' in order and order.index('store') < order.index('rms')
+        run.check(okorder, 'C13.rms', f.qual, 'order', 'mask -> measure rms -> scale -> apply', 'the RMS is not measured after masking and before scaling (events: %s)' % order, f.loc())
+        run.check(z is not None and z == want and any(e == ('rms', 'Z') for e in events), 'C13.rms', f.qual, 'measure / scale / apply',
+                  'the masked surface is measured by the NaN-aware rms, scale == requested / measured, the surface is multiplied by the scale',
+                  'the RMS scaling is no longer z * rms / rms(z) on the masked surface: the returned surface is %s' % (z.key() if z is not None else repr(p_.value.items[2])), f.loc())
+        break
     # the module-level rms really is the NaN-aware one
     mod = db.module('prysm.interferogram')
     r = db.resolve_name(mod, 'rms')
